@@ -88,3 +88,13 @@ Definition found_at (ty : DefinitionType) (d : Def) (file line col : nat) : bool
 Definition recorded_at (fuel : nat) (evs : list Event) (ty : DefinitionType) (f l c : nat) : Prop :=
   (exists e u, In e evs /\ In (ty, u) (event_pairs fuel e) /\ span_contains (dl_span u) f l c = true) \/
   (exists nx loc, ty = DtSymbol nx /\ In (EvDefine nx loc) evs /\ span_contains (dl_span loc) f l c = true).
+
+(* ---------- greedy analysis: the analysed table = the build's table plus extra edges ---------- *)
+Definition without (is_extra : edge -> bool) (g : graph) : graph := filter (fun e => negb (is_extra e)) g.
+
+Definition node_of (g : graph) (n : node) : Prop := exists e, In e g /\ (e_src e = n \/ e_dst e = n).
+
+(* the class of the known finding: an identifier of the path is the name of a greedy-only definition *)
+Definition Known_greedy_untaken_definition (is_extra : edge -> bool) (g' : graph) (p : path) : bool :=
+  existsb (fun e => is_extra e && existsb (ident_eqb (e_lbl e)) p) g'.
+
